@@ -6,10 +6,12 @@
 #include "gen/xgen.hpp"
 #include "gen/mutate.hpp"
 
+#include "hexsim.hpp"
 #include "hexasm.hpp"
 #include "xcmp.hpp"
 
 #include <dirent.h>
+#include <sys/stat.h>
 
 int hexsim_main(int argc, const char **argv);
 int hexasm_main(int argc, const char **argv);
@@ -209,6 +211,12 @@ public:
     inv["stdin_hex"] = sim::toHex(in);
     if (r.chance(1, 12)) { inv["inject_open_failure"] = true; }   // recorded, never judged
     if ((tool == "xrun" || tool == "hexsim") && r.chance(1, 12)) inv["stdin_closed"] = true;   // started with descriptor 0 closed
+    // Simulated time: the simulator's cycle counter starts just below a power of two (only without a
+    // cycle limit, whose meaning is tied to the count).
+    if ((tool == "xrun" || tool == "hexsim") && std::find(parts.begin(), parts.end(), "--max-cycles") == parts.end() && r.chance(1, 5)) {
+      static const unsigned bits[] = {8, 15, 16, 24, 31, 32, 32, 33, 48, 62};
+      inv["cycle_base"] = (unsigned long long)((1ull << bits[r.below(10)]) - r.below(40));
+    }
     ops.push(inv);
     plan["config"] = cfg; plan["ops"] = ops;
     return plan;
@@ -320,6 +328,10 @@ public:
     r.before = sim::fs::snapshot();
     ss.attach(closedNow ? std::string() : input);
     sim::fs::setStdinClosed(closedNow);
+    bool limited = std::find(args.begin(), args.end(), "--max-cycles") != args.end();
+    hexsim::Processor::verifCycleBase() = (tool == "hexsim" || tool == "xrun") && !limited ? (size_t)cycleBaseNow : 0;
+    bool based = hexsim::Processor::verifCycleBase() != 0;       // no counterpart in the real-executable layer
+    if (based) sim::g_log.ev("cycle_base", hexsim::Processor::verifCycleBase());
     std::vector<std::string> argv;
     argv.push_back(tool);
     for (auto &a : args) argv.push_back(a);
@@ -336,13 +348,14 @@ public:
     }, 30);
     sim::simclock::deactivate();
     sim::fs::setStdinClosed(false);
+    hexsim::Processor::verifCycleBase() = 0;
     r.out = ss.out.data; r.err = ss.err.data; r.consumed = closedNow ? 0 : ss.in.consumed();
     ss.detach();
     r.after = sim::fs::snapshot();
     std::string line = tool;
     for (auto &a : args) line += " " + a;
     sim::g_log.evs("invoke", line + " -> " + r.str());
-    dumpObservation(tool, args, input, r);
+    if (!based) dumpObservation(tool, args, input, r);
     return r;
   }
 
@@ -356,6 +369,7 @@ public:
     const char *path = getenv("VERIF_OBS_FILE");
     if (obsLeft <= 0 || !path || obsSuppress) return;
     if (r.t.kind == sim::Trapped::CRASHED) return;
+    { struct stat st; if (::stat(path, &st) == 0 && st.st_size > (64 << 20)) return; }   // restarted workers start a new budget: bound the file
     if (ss.out.overflowed || ss.err.overflowed) return;     // more than the simulated streams keep (1 MB): nothing to compare byte for byte
     obsLeft--;
     Json j = Json::object();
@@ -391,6 +405,7 @@ public:
   // hexref's verdict on a binary file + input.
   bool isaUsedFiles = false;      // did the last isaOutcome() touch a file stream
   bool closedNow = false;         // invocations run with standard input closed (descriptor-0 model of sim::fs)
+  uint64_t cycleBaseNow = 0;      // hexsim/xrun invocations start with the cycle counter here (hook H1)
   bool isaOutcome(const std::string &file, const std::string &input, uint64_t budget, uint32_t &exitValue, std::string &out, size_t &consumed, uint64_t *stepsOut = nullptr) {
     if (file.size() < 8) return false;
     uint32_t words = 0; std::memcpy(&words, file.data(), 4);
@@ -439,6 +454,7 @@ public:
   void run(const Json &plan, Outcome &o) {
     sim::fs::reset();
     closedNow = false;
+    cycleBaseNow = 0;
     std::string nearCopyPath; uint64_t nearCopy = 0;
     std::string srcName, text, origin; bool haveSource = false;
     const Json *invp = nullptr;
@@ -458,6 +474,8 @@ public:
     std::vector<std::string> args;
     for (auto &a : inv.at("argv").a) args.push_back(a.s);
     std::string input = sim::fromHex(inv.getStr("stdin_hex"));
+    cycleBaseNow = inv.getU64("cycle_base");
+    if (cycleBaseNow) o.count("fault.cycle_counter_starts_high");
     // Which file argument, which output name, which listing flag.
     // A usage error, judged by the command lines the four help texts document, is any of: -h/--help,
     // an option the tool does not have, an option without its value, --max-cycles with a word for a
